@@ -271,8 +271,15 @@ func c11Gen(r *vRand) *c11Case {
 		c.entry = 2
 		switch y := r.Intn(20); {
 		case y < 2:
-			c.nbytes = BLOCKSIZE + 1 + int64(r.Intn(1000))
+			c.nbytes = BLOCKSIZE + 1
+			if r.Bool() {
+				c.nbytes += int64(r.Intn(1000))
+			}
 			c.tags = append(c.tags, "oversize")
+		case y == 6:
+			// the largest size that is not rejected; the reader is shorter, so every upload fails in transport
+			c.nbytes = BLOCKSIZE
+			c.tags = append(c.tags, "hr-blocksize-exactly")
 		case y < 4 && len(c.data) > 0:
 			c.hash = fmt.Sprintf("%x", md5.Sum(append([]byte("x"), c.data...)))
 			c.tags = append(c.tags, "hr-bad-hash")
